@@ -65,6 +65,15 @@ def handle (op : String) (a : Json) : P Json := do
     let s ← stateOf (← field a "state")
     let F : Fns := ⟨tableFn (← getList rowOf a "hyp"), tableFn (← getList rowOf a "at2")⟩
     pure <| resJ Json.bool (isReached F τ ε goals s)
+  | "is_reached_moved" =>
+    -- the goal region after `translate_rotate(t, 0)`: the MODEL moves the goals (the harness sends the goals as they were)
+    let τ ← getRat a "tau"
+    let ε ← getRat a "eps"
+    let goals ← getList goalOf a "goals"
+    let s ← stateOf (← field a "state")
+    let t ← ptOf (← field a "t")
+    let F : Fns := ⟨tableFn (← getList rowOf a "hyp"), tableFn (← getList rowOf a "at2")⟩
+    pure <| resJ Json.bool (isReachedMoved F τ ε t goals s)
   | "goal_reached" =>
     let ans ← getList ansOf a "answers"
     pure <| resJ (fun (p : Bool × Int) => Json.arr #[Json.bool p.1, intJ p.2]) (goalReached ans)
